@@ -246,7 +246,7 @@ func TestVerifSaferithModel(t *testing.T) {
 				pl.mi[i].abs.um = um
 			}
 		}
-		verifEscaped = 0
+		verifEscaped, verifEscapedInv = 0, 0
 		if err := pl.compare(fmt.Sprintf("seq %d init", seq)); err != nil {
 			t.Fatal(err)
 		}
@@ -430,7 +430,7 @@ func TestVerifSaferithModel(t *testing.T) {
 			where += " before: " + pl.dump()
 			mp := verifDiffCall(modelF)
 			steps[op]++
-			if verifEscaped != 0 {
+			if verifEscaped != 0 || verifEscapedInv != 0 {
 				// outside the model's domain: the real operation is not run, nothing is compared
 				escapes[op]++
 				break
@@ -504,7 +504,7 @@ func TestVerifSaferithModelNumct(t *testing.T) {
 	// modInvEven (through ModInv on an even modulus), ModI, Set
 	n1, n2, n3 := 0, 0, 0
 	for i := 0; i < 20000; i++ {
-		verifEscaped = 0
+		verifEscaped, verifEscapedInv = 0, 0
 		mv := uint64(rng.Intn(1<<uint(1+rng.Intn(15)))+1) * 2
 		xv := uint64(rng.Intn(1 << uint(1+rng.Intn(17))))
 		m := mkMod(mv)
@@ -512,7 +512,7 @@ func TestVerifSaferithModelNumct(t *testing.T) {
 		outR, outM := mk(77, 64), mk(77, 64)
 		okR := m.ModInv(outR, x)
 		okM := verifCNumctModInvEven(m, outM, x)
-		if verifEscaped == 0 {
+		if verifEscaped == 0 && verifEscapedInv == 0 {
 			n1++
 			rec := verifNatTab[(*saferith.Nat)(outM)]
 			if okR != okM || (okR == ct.True && ((*saferith.Nat)(outR).Uint64() != rec.v || (*saferith.Nat)(outR).AnnouncedLen() != rec.ann)) {
@@ -520,7 +520,7 @@ func TestVerifSaferithModelNumct(t *testing.T) {
 			}
 		}
 		// ModI on any modulus
-		verifEscaped = 0
+		verifEscaped, verifEscapedInv = 0, 0
 		mv2 := uint64(rng.Intn(1<<uint(1+rng.Intn(16)))) + 1
 		m2 := mkMod(mv2)
 		iv, neg := uint64(rng.Intn(1<<uint(1+rng.Intn(30)))), saferith.Choice(rng.Intn(2))
@@ -534,7 +534,7 @@ func TestVerifSaferithModelNumct(t *testing.T) {
 		oR, oM := mk(5, 64), mk(5, 64)
 		m2.ModI(oR, (*numct.Int)(ri))
 		verifCNumctModI(m2, oM, (*numct.Int)(ri))
-		if verifEscaped == 0 {
+		if verifEscaped == 0 && verifEscapedInv == 0 {
 			n2++
 			rec := verifNatTab[(*saferith.Nat)(oM)]
 			if (*saferith.Nat)(oR).Uint64() != rec.v || (*saferith.Nat)(oR).AnnouncedLen() != rec.ann {
